@@ -328,13 +328,14 @@ Definition m_readdir (s : mst) (i : nat) (h : hnd) (count : Z) : mst * list finf
     if negb (ndir n) then (s, [], Some (EW KNotADir))
     else
       let all := dir_files s n in
-      let files := skipn (Z.to_nat (hrdc h)) all in
+      let rdc := if zlen all <? hrdc h then zlen all else hrdc h in   (* entries were removed since the previous call *)
+      let files := skipn (Z.to_nat rdc) all in
       let len := zlen files in
       let out := if 0 <? count then (if len <? count then len else count) else len in
       let e := if (0 <? count) && (len =? 0) then Some (E KEOF) else None in
       let infos := map (fun r => match get_node s r with Some c => finfo_of c | None => mkFi [] false 0 0 0 end)
                        (firstn (Z.to_nat out) files) in
-      (set_handle s i (set_rdc h (hrdc h + out)), infos, e)
+      (set_handle s i (set_rdc h (rdc + out)), infos, e)
   end.
 
 Definition m_hop (s : mst) (i : nat) (k : hnd -> node -> mst * res) : mst * res :=
